@@ -16,7 +16,7 @@ from ..engine import Outcome
 ID = "C09"
 LEVEL = "exploration"
 RULE = ("result tables from the four result paths (streamed, ordered buffer, single aggregate row, grouped rows) with "
-        "0, 1 and many rows and 1..6 distinct columns over trees whose names come from adversarial classes (all ASCII "
+        "0, 1 and many rows and 1..7 columns (a fifth of the cases select one column twice) over trees whose names come from adversarial classes (all ASCII "
         "punctuation, quotes, comma, semicolon, < > &, tab and newline, leading/trailing spaces, multi-byte UTF-8, "
         "number/boolean/null look-alikes, letters whose code point ends in the byte of a format's special character), one root or 2-4 roots in FROM (rows split between roots, an empty root, a root listed twice, root options), and long rows (> 8 KiB and > 64 KiB via nested multi-byte directories and "
         "concat). Each table is requested in all six formats; `into list` is the reference T. Oracle: JSON parses to a "
@@ -72,6 +72,10 @@ def strategy_(draw, tier):
         cols = ["path", "dir"] + [c for c in cols if c not in ("path", "dir")][:3]
         reps = 3 if long_rows == "8k" else 24
         cols.append("concat(" + ", ".join(["path"] * reps) + ")")
+    if not long_rows and draw(st.sampled_from(range(5))) == 0:
+        # the same column twice (also spelled differently): a row still has one value per selected column
+        d = draw(st.sampled_from(cols))
+        cols = cols + [draw(st.sampled_from([d, d.upper(), d]))]
     where = draw(st.sampled_from([None, None, "is_file = true", "size >= 0", "name = 'no-such'"]))
     if path == "aggregate":
         cols = draw(st.lists(st.sampled_from(["count(*)", "sum(size)", "max(size)", "avg(size)", "min(length(name))"]),
@@ -159,7 +163,7 @@ def parse_csv(text, k):
     return [tuple(r) for r in rows]
 
 
-_ENT = re.compile(r"&(?!(amp|lt|gt|quot|apos|#39|#x27|#34|#x22|#38|#60|#62|#x2[Ff]|#47);)")
+_ENT = re.compile(r"&(?!(amp|lt|gt|quot|apos|#[0-9]{1,7}|#[xX][0-9A-Fa-f]{1,6});)")   # any well-formed character reference
 _DOC = re.compile(r"\A<html><body><table>(.*)</table></body></html>\s*\Z", re.S)
 _ROW = re.compile(r"<tr>(.*?)</tr>", re.S)
 _CELL = re.compile(r"<td>([^<>]*)</td>", re.S)
@@ -186,6 +190,9 @@ def parse_html(text, k):
             raw = cm.group(1)
             if _ENT.search(raw):
                 raise Bad("unescaped & in cell %r" % raw[:60])
+            # what every HTML / XML parser does to the raw text before anything else: CR LF and a lone CR become LF
+            # (a carriage return only survives as a character reference)
+            raw = raw.replace("\r\n", "\n").replace("\r", "\n")
             cells.append(html.unescape(raw))
         if cpos != len(inner):
             raise Bad("stray markup inside a row: %r" % inner[cpos:][:60])
